@@ -38,6 +38,35 @@ func timeAfter(cond ssa.Value, isA, isB func(ssa.Value) bool) (int, int) {
 	return 0, 0
 }
 
+// timeAfterStrict is timeAfter with the boundary kept apart: the atom "A is after B"
+// (strictly) is asserted by A.After(B) / B.Before(A) being true and refuted by their being
+// false; A.Before(B) / B.After(A) being true refutes it, and their being false (A >= B)
+// says nothing about it.
+func timeAfterStrict(cond ssa.Value, isA, isB func(ssa.Value) bool) (int, int) {
+	cl, ok := core.Strip(cond).(*ssa.Call)
+	if !ok {
+		return 0, 0
+	}
+	r, args := core.CallArgs(&cl.Call)
+	if len(args) != 1 || r == nil {
+		return 0, 0
+	}
+	after := false
+	if _, ok := core.IsCall(cl, core.CalleeID{Pkg: "time", Recv: "Time", Name: "After"}); ok {
+		after = true
+	} else if _, ok := core.IsCall(cl, core.CalleeID{Pkg: "time", Recv: "Time", Name: "Before"}); !ok {
+		return 0, 0
+	}
+	x, y := core.Strip(r), core.Strip(args[0])
+	switch {
+	case isA(x) && isB(y) && after, isB(x) && isA(y) && !after:
+		return 1, -1
+	case isA(x) && isB(y) && !after, isB(x) && isA(y) && after:
+		return -1, 0
+	}
+	return 0, 0
+}
+
 // isEntryField: v is node.csEntry.<field> (through the embedded baseCsEntry).
 func isEntryField(v ssa.Value, node ssa.Value, field string) bool {
 	root, path := core.FieldPath(v)
